@@ -412,6 +412,8 @@ class S256Point(Point):
     @classmethod
     def parse_sec(cls, sec_bin):
         """returns a Point object from a SEC pubkey"""
+        if len(sec_bin) != (65 if sec_bin[0] == 4 else 33):
+            raise ValueError("SEC length does not match its prefix")
         if sec_bin[0] == 4:
             x = int(sec_bin[1:33].hex(), 16)
             y = int(sec_bin[33:65].hex(), 16)
